@@ -466,13 +466,23 @@ def gen_constants():
     if keep_chars is None:
         raise TranslatorError("_parse_attribute_name: kept-character tuple not found")
 
-    # reserved names, evaluated in the target interpreter (dir(object) + keyword.kwlist + ["_dict"])
+    # reserved names: a `+`-chain of `dir(object)`, `list(keyword.kwlist)` and lists of string literals, evaluated in
+    # the target interpreter
     rp = module_assign("statham/schema/elements/meta.py", "RESERVED_PROPERTIES")
-    rp_src = ast.unparse(rp)
-    if rp_src != "dir(object) + list(keyword.kwlist) + ['_dict']":
-        raise TranslatorError("RESERVED_PROPERTIES has an unrecognised definition: " + rp_src)
     import keyword as _kw
-    reserved = dir(object) + list(_kw.kwlist) + ["_dict"]
+
+    def reserved_of(node):
+        if isinstance(node, ast.BinOp) and isinstance(node.op, ast.Add):
+            return reserved_of(node.left) + reserved_of(node.right)
+        src = ast.unparse(node)
+        if src == "dir(object)":
+            return dir(object)
+        if src == "list(keyword.kwlist)":
+            return list(_kw.kwlist)
+        if isinstance(node, ast.List) and all(isinstance(e, ast.Constant) and isinstance(e.value, str) for e in node.elts):
+            return [e.value for e in node.elts]
+        raise TranslatorError("RESERVED_PROPERTIES has an unrecognised definition: " + ast.unparse(rp))
+    reserved = reserved_of(rp)
 
     def pairs(l):
         return lean_list([f"({lean_str(a)}, {lean_str(b)})" for a, b in l])
